@@ -35,9 +35,12 @@ IsFixedSize(size) == FixedEnabled /\ size <= 80
 
 Cell(a) == IF a \in DOMAIN hdr THEN hdr[a] ELSE [size |-> 0, next |-> 0]
 
+\* a fixed list holds exactly `count` blocks (the head's size field); whatever the link
+\* field of the last one (or of an empty head) contains is dead data
 RECURSIVE ListFrom(_, _)
-ListFrom(p, fuel) == IF p = 0 \/ fuel = 0 THEN << >> ELSE <<p>> \o ListFrom(Cell(p).next, fuel - 1)
-FixedBlocks(fl) == ListFrom(Cell(fl).next, Cardinality(DOMAIN hdr) + 1)
+ListFrom(p, n) == IF p = 0 \/ n <= 0 THEN << >> ELSE <<p>> \o ListFrom(Cell(p).next, n - 1)
+FixedBlocks(fl) == ListFrom(Cell(fl).next, IF Cell(fl).size < Cardinality(DOMAIN hdr) + 1
+                                           THEN Cell(fl).size ELSE Cardinality(DOMAIN hdr) + 1)
 
 RECURSIVE RingFrom(_, _)
 RingFrom(p, fuel) == IF p = L128 \/ p = 0 \/ fuel = 0 THEN << >> ELSE <<p>> \o RingFrom(Cell(p).next, fuel - 1)
